@@ -382,14 +382,30 @@ func fillTime(l ref.Leaf, i int64) time.Time {
 	}
 	u := unitNanos(l.ID)
 	i %= (1 << 62) / u
-	return time.Unix(0, i*u).UTC()
+	// a fraction finer than the column's unit (instants before 1970 with such a
+	// fraction are where truncation and the documented flooring differ)
+	frac := int64(0)
+	if u > 1 {
+		frac = (i*7919 + 13) % u
+		if frac < 0 {
+			frac = -frac
+		}
+	}
+	return time.Unix(0, i*u+frac).UTC()
 }
 
+// timeValue is the documented mapping: days since the epoch for DATE,
+// UnixMilli / UnixMicro / UnixNano (which floor) for TIMESTAMP.
 func timeValue(l ref.Leaf, t time.Time) int64 {
 	if l.ID == "date" {
 		return t.Unix() / 86400
 	}
-	return t.UnixNano() / unitNanos(l.ID)
+	n, u := t.UnixNano(), unitNanos(l.ID)
+	q := n / u
+	if n%u < 0 {
+		q--
+	}
+	return q
 }
 
 func fillLeaf(rv reflect.Value, l ref.Leaf, v ref.V) {
